@@ -58,7 +58,7 @@ Judged(M, n) == M.alive[n] /\ n \notin M.taint
 MonEv(M, r) ==
   IF r.e = "kill" THEN [M EXCEPT !.alive[r.n] = FALSE]
   ELSE IF r.e \notin {"app_est", "app_closed", "p_est", "p_closed", "p_exit", "p_none", "pause", "resume",
-                      "proof_begin", "proof_ok", "quiesce", "redial_begin", "redial", "newconn"} THEN M
+                      "proof_begin", "proof_ok", "quiesce", "redial_begin", "redial", "newconn", "snap"} THEN M
   ELSE IF ~Judged(M, r.n) THEN M
   ELSE LET n == r.n IN
   CASE r.e = "app_est" ->
@@ -90,6 +90,10 @@ MonEv(M, r) ==
          IF M.conns[n] # {} THEN Fail(M1, n, "silence: application never told that the connection closed")
          ELSE IF \E q \in M.run[n] : M.up[n][q] THEN Fail(M1, n, "silence: running protocol never told that the connection closed")
          ELSE M1
+    \* unit level (connection harness): state of the inboxes / manager channel between two polls of the
+    \* connection task - protocols are told before the manager
+    [] r.e = "snap" ->
+         IF r.mgr /\ Len(r.untold) > 0 THEN Fail(M, n, "manager told closed before a running protocol") ELSE M
     [] r.e = "redial_begin" -> [M EXCEPT !.snapIdle[n] = (M.conns[n] = {})]
     [] r.e = "redial" ->
          \* judged only when no earlier dial of this node was still unresolved (r.clean)
